@@ -462,7 +462,7 @@ Proof.
                            | simpl; intros _; rewrite Epc; reflexivity | simpl; rewrite Epc; simpl; intros; discriminate
                            | destruct (c_lock s =? 0); reflexivity | intros ?; unfold mknow; simpl; destruct (c_lock s =? 0); exact Logic.I].
   - inv_some Hs. m_setpc M Epc.
-  - destruct (c_lock s =? 1); inv_some Hs; m_setpc M Epc.
+  - destruct (c_lock s =? 1); [destruct (Nat.eqb ch 2); [|destruct (Nat.eqb ch 3)]|]; inv_some Hs; m_setpc M Epc.
   - (* WRmLock *)
     destruct (Z.eqb_spec (c_rmx s) 0) as [R0|R0]; [|discriminate Hs]. inv_some Hs.
     apply minv_rlock; try assumption; try reflexivity; rewrite ?Epc; try reflexivity; try (simpl; intros; discriminate).
